@@ -367,20 +367,24 @@ func (g structReprMapReprBuilderGenerator) EmitNodeAssemblerMethodAssignNode(w i
 			if v.Kind() != datamodel.Kind_Map {
 				return datamodel.ErrWrongKind{TypeName: "{{ .PkgName }}.{{ .Type.Name }}.Repr", MethodName: "AssignNode", AppropriateKind: datamodel.KindSet_JustMap, ActualKind: v.Kind()}
 			}
+			ma, err := na.BeginMap(v.Length())
+			if err != nil {
+				return err
+			}
 			itr := v.MapIterator()
 			for !itr.Done() {
 				k, v, err := itr.Next()
 				if err != nil {
 					return err
 				}
-				if err := na.AssembleKey().AssignNode(k); err != nil {
+				if err := ma.AssembleKey().AssignNode(k); err != nil {
 					return err
 				}
-				if err := na.AssembleValue().AssignNode(v); err != nil {
+				if err := ma.AssembleValue().AssignNode(v); err != nil {
 					return err
 				}
 			}
-			return na.Finish()
+			return ma.Finish()
 		}
 	`, w, g.AdjCfg, g)
 }
